@@ -183,6 +183,63 @@ impl Set {
     }
 }
 
+/// which = 4: every caller thread CONSTRUCTS its own interpreter (a different splitter language per
+/// thread, through the `Language` facade and through the concrete type) at the same time as the
+/// others, uses it, and the results are compared afterwards with what a later, sequential construction
+/// gives: races in process-wide state touched by the constructors (shared caches of compiled automata,
+/// lazily initialised tables) show up as a difference.
+fn concurrent_construction(nthreads: usize) -> bool {
+    fn work(lang: usize, facade: bool) -> String {
+        let words: [&str; 3] = match lang {
+            0 => ["einundzwanzig", "zweitausend", "dreiundvierzigste"],
+            1 => ["eenentwintig", "tweeduizend", "drieënvijftigste"],
+            _ => ["ventitré", "duemilacento", "duecentesima"],
+        };
+        let mut out = String::new();
+        for w in words {
+            let r = match (lang, facade) {
+                (0, true) => text2digits(w, &Language::german()),
+                (0, false) => text2digits(w, &German::new()),
+                (1, true) => text2digits(w, &Language::dutch()),
+                (1, false) => text2digits(w, &Dutch::new()),
+                (_, true) => text2digits(w, &Language::italian()),
+                (_, false) => text2digits(w, &Italian::new()),
+            };
+            out.push_str(&format!("{:?}|", r.map_err(|e| format!("{e:?}"))));
+        }
+        out
+    }
+    let barrier = Arc::new(std::sync::Barrier::new(nthreads));
+    let handles: Vec<_> = (0..nthreads)
+        .map(|t| {
+            let barrier = barrier.clone();
+            std::thread::spawn(move || {
+                barrier.wait();
+                (t, work(t % 3, t % 2 == 0))
+            })
+        })
+        .collect();
+    let mut failed = false;
+    let mut got = vec![];
+    for h in handles {
+        match h.join() {
+            Ok(x) => got.push(x),
+            Err(_) => {
+                println!("MIRI-MISMATCH a constructing thread panicked");
+                failed = true;
+            }
+        }
+    }
+    for (t, g) in got {
+        let later = work(t % 3, t % 2 == 0);
+        if g != later {
+            println!("MIRI-MISMATCH thread {t}: an interpreter constructed concurrently with others gave {g:?}, constructed later it gives {later:?}");
+            failed = true;
+        }
+    }
+    failed
+}
+
 fn main() {
     // argv: <nthreads> <rounds> <offset> <which splitter language: 0 de, 1 nl, 2 it>
     let args: Vec<String> = std::env::args().collect();
@@ -192,6 +249,13 @@ fn main() {
     let which: usize = args.get(4).and_then(|s| s.parse().ok()).unwrap_or(0);
     // dense: only the short single-word calls (keeps the shared splitter busiest per unit of time)
     let dense: bool = args.get(5).map(|s| s == "dense").unwrap_or(false);
+    if which == 4 {
+        if concurrent_construction(nthreads.max(2)) {
+            std::process::exit(1);
+        }
+        println!("MIRI-OK threads={nthreads} concurrent construction which=4");
+        return;
+    }
     // one set of interpreters, created once; the reference results are computed on it
     // sequentially before any other thread exists (history independence is the business of the
     // simulator's history layer; this layer is about interleavings)
